@@ -27,6 +27,9 @@ type Term struct {
 	B   bool
 	F   float64
 	Big *big.Int // constants wider than 64 bits
+	R   bool     // signed value known to lie in [Lo,Hi] (justified by an assumption on the path)
+	Lo  int64
+	Hi  int64
 }
 
 func (t *Term) String() string { return t.S }
@@ -45,8 +48,22 @@ func sortStr(k Kind, w int) string {
 	case KBV:
 		return fmt.Sprintf("(_ BitVec %d)", w)
 	default:
+		if gFPUF {
+			return "(_ BitVec 64)" // abstract floats: opaque 64-bit patterns, arithmetic uninterpreted
+		}
 		return "(_ FloatingPoint 11 53)"
 	}
+}
+
+// gFPUF is set per harness run (harnesses run one at a time): float arithmetic is abstracted to
+// uninterpreted functions over 64-bit patterns. Sound for proving equalities (symmetry, determinism).
+var gFPUF bool
+
+func fpS(t *Term) string {
+	if gFPUF && t.C {
+		return fmt.Sprintf("#x%016x", math.Float64bits(t.F))
+	}
+	return t.S
 }
 
 func (t *Term) Sort() string { return sortStr(t.K, t.W) }
@@ -85,6 +102,38 @@ func mkBVBig(w int, v *big.Int) *Term {
 }
 
 func mkInt(v int64) *Term { return mkBV(64, uint64(v)) }
+
+const rngLimit = int64(1) << 60
+
+func rangeOf(t *Term) (int64, int64, bool) {
+	if t.K != KBV {
+		return 0, 0, false
+	}
+	if t.C && t.W <= 64 {
+		v := sext(t.U, t.W)
+		return v, v, true
+	}
+	if t.R {
+		return t.Lo, t.Hi, true
+	}
+	return 0, 0, false
+}
+
+func withRange(t *Term, lo, hi int64) *Term {
+	if t.C || lo < -rngLimit || hi > rngLimit || lo > hi {
+		return t
+	}
+	if t.W < 64 {
+		// must fit the signed width without wrapping
+		m := int64(1) << uint(t.W-1)
+		if lo < -m || hi >= m {
+			return t
+		}
+	}
+	n := *t
+	n.R, n.Lo, n.Hi = true, lo, hi
+	return &n
+}
 
 func mkF64(f float64) *Term {
 	bits := math.Float64bits(f)
@@ -205,7 +254,23 @@ func (p *Path) ite(c, a, b *Term) *Term {
 			}
 		}
 	}
-	return p.nm(&Term{K: a.K, W: a.W, S: "(ite " + c.S + " " + a.S + " " + b.S + ")"})
+	as, bs := a.S, b.S
+	if a.K == KFP {
+		as, bs = fpS(a), fpS(b)
+	}
+	res := p.nm(&Term{K: a.K, W: a.W, S: "(ite " + c.S + " " + as + " " + bs + ")"})
+	if al, ah, ok1 := rangeOf(a); ok1 {
+		if bl, bh, ok2 := rangeOf(b); ok2 {
+			if bl < al {
+				al = bl
+			}
+			if bh > ah {
+				ah = bh
+			}
+			res = withRange(res, al, ah)
+		}
+	}
+	return res
 }
 
 func (p *Path) boolEq(a, b *Term) *Term {
@@ -326,7 +391,22 @@ func (p *Path) bvBin(op string, a, b *Term) *Term {
 			return a
 		}
 	}
-	return p.nm(&Term{K: KBV, W: w, S: "(" + op + " " + a.S + " " + b.S + ")"})
+	res := p.nm(&Term{K: KBV, W: w, S: "(" + op + " " + a.S + " " + b.S + ")"})
+	if al, ah, ok1 := rangeOf(a); ok1 {
+		if bl, bh, ok2 := rangeOf(b); ok2 {
+			switch op {
+			case "bvadd":
+				res = withRange(res, al+bl, ah+bh)
+			case "bvsub":
+				res = withRange(res, al-bh, ah-bl)
+			case "bvmul":
+				if al >= 0 && bl >= 0 && ah < 1<<30 && bh < 1<<30 {
+					res = withRange(res, al*bl, ah*bh)
+				}
+			}
+		}
+	}
+	return res
 }
 
 func isZero(t *Term) bool {
@@ -353,7 +433,11 @@ func (p *Path) bvNeg(a *Term) *Term {
 	if a.C && a.W <= 64 {
 		return mkBV(a.W, -a.U)
 	}
-	return p.nm(&Term{K: KBV, W: a.W, S: "(bvneg " + a.S + ")"})
+	res := p.nm(&Term{K: KBV, W: a.W, S: "(bvneg " + a.S + ")"})
+	if l, h, ok := rangeOf(a); ok {
+		res = withRange(res, -h, -l)
+	}
+	return res
 }
 
 func (p *Path) bvCmp(op string, a, b *Term) *Term {
@@ -459,7 +543,7 @@ func (p *Path) concat(hi, lo *Term) *Term {
 // ---------------------------------------------------------------- floats
 
 func (p *Path) fpBin(op string, a, b *Term) *Term {
-	if a.C && b.C {
+	if a.C && b.C && !gFPUF {
 		switch op {
 		case "fp.add":
 			return mkF64(a.F + b.F)
@@ -471,12 +555,40 @@ func (p *Path) fpBin(op string, a, b *Term) *Term {
 			return mkF64(a.F / b.F)
 		}
 	}
+	if gFPUF {
+		return p.ufApp("uf_"+strings.ReplaceAll(op, ".", "_"), KFP, 64, a, b)
+	}
 	return p.nm(&Term{K: KFP, W: 64, S: "(" + op + " RNE " + a.S + " " + b.S + ")"})
+}
+
+// ufApp applies an uninterpreted function (declared on first use on this path).
+func (p *Path) ufApp(name string, k Kind, w int, args ...*Term) *Term {
+	key := "$uf:" + name
+	if p.stubs[key] == nil {
+		p.stubs[key] = termTrue
+		var as []string
+		for _, a := range args {
+			as = append(as, a.Sort())
+		}
+		p.decls = append(p.decls, fmt.Sprintf("(declare-fun %s (%s) %s)", name, strings.Join(as, " "), sortStr(k, w)))
+	}
+	parts := []string{name}
+	for _, a := range args {
+		if a.K == KFP {
+			parts = append(parts, fpS(a))
+		} else {
+			parts = append(parts, a.S)
+		}
+	}
+	return p.nm(&Term{K: k, W: w, S: "(" + strings.Join(parts, " ") + ")"})
 }
 
 func (p *Path) fpNeg(a *Term) *Term {
 	if a.C {
 		return mkF64(-a.F)
+	}
+	if gFPUF {
+		return p.ufApp("uf_fp_neg", KFP, 64, a)
 	}
 	return p.nm(&Term{K: KFP, W: 64, S: "(fp.neg " + a.S + ")"})
 }
@@ -485,6 +597,9 @@ func (p *Path) fpAbs(a *Term) *Term {
 	if a.C {
 		return mkF64(math.Abs(a.F))
 	}
+	if gFPUF {
+		return p.ufApp("uf_fp_abs", KFP, 64, a)
+	}
 	return p.nm(&Term{K: KFP, W: 64, S: "(fp.abs " + a.S + ")"})
 }
 
@@ -492,12 +607,18 @@ func (p *Path) fpIsNaN(a *Term) *Term {
 	if a.C {
 		return mkBool(math.IsNaN(a.F))
 	}
+	if gFPUF {
+		return p.ufApp("uf_fp_isnan", KBool, 0, a)
+	}
 	return p.nm(&Term{K: KBool, S: "(fp.isNaN " + a.S + ")"})
 }
 
 func (p *Path) fpIsInf(a *Term) *Term {
 	if a.C {
 		return mkBool(math.IsInf(a.F, 0))
+	}
+	if gFPUF {
+		return p.ufApp("uf_fp_isinf", KBool, 0, a)
 	}
 	return p.nm(&Term{K: KBool, S: "(fp.isInfinite " + a.S + ")"})
 }
@@ -517,6 +638,9 @@ func (p *Path) fpCmp(op string, a, b *Term) *Term {
 			return mkBool(a.F >= b.F)
 		}
 	}
+	if gFPUF {
+		return p.ufApp("uf_"+strings.ReplaceAll(op, ".", "_"), KBool, 0, a, b)
+	}
 	return p.nm(&Term{K: KBool, S: "(" + op + " " + a.S + " " + b.S + ")"})
 }
 
@@ -525,15 +649,34 @@ func (p *Path) fpSame(a, b *Term) *Term {
 	if a.C && b.C {
 		return mkBool(math.Float64bits(a.F) == math.Float64bits(b.F))
 	}
-	return p.nm(&Term{K: KBool, S: "(= " + a.S + " " + b.S + ")"})
+	return p.nm(&Term{K: KBool, S: "(= " + fpS(a) + " " + fpS(b) + ")"})
 }
 
 func (p *Path) intToFP(a *Term, signed bool) *Term {
-	if a.C && a.W <= 64 {
+	if a.C && a.W <= 64 && !gFPUF {
 		if signed {
 			return mkF64(float64(sext(a.U, a.W)))
 		}
 		return mkF64(float64(a.U))
+	}
+	if gFPUF {
+		return p.ufApp("uf_itof", KFP, 64, a)
+	}
+	// a value with a known small range is converted from its low bits only (same value, far cheaper to bit-blast)
+	if lo, hi, ok := rangeOf(a); ok {
+		bits := 1
+		for m := hi; m > 0; m >>= 1 {
+			bits++
+		}
+		for m := -lo; m > 0; m >>= 1 {
+			bits++
+		}
+		if lo >= 0 && bits < a.W {
+			return p.nm(&Term{K: KFP, W: 64, S: "((_ to_fp_unsigned 11 53) RNE " + p.extract(a, bits-1, 0).S + ")"})
+		}
+		if bits+1 < a.W {
+			return p.nm(&Term{K: KFP, W: 64, S: "((_ to_fp 11 53) RNE " + p.extract(a, bits, 0).S + ")"})
+		}
 	}
 	if signed {
 		return p.nm(&Term{K: KFP, W: 64, S: "((_ to_fp 11 53) RNE " + a.S + ")"})
@@ -550,6 +693,9 @@ func (p *Path) fpToInt(a *Term, w int, signed bool) *Term {
 			return mkBV(w, uint64(a.F))
 		}
 	}
+	if gFPUF {
+		return p.ufApp(fmt.Sprintf("uf_ftoi%d", w), KBV, w, a)
+	}
 	if signed {
 		return p.nm(&Term{K: KBV, W: w, S: fmt.Sprintf("((_ fp.to_sbv %d) RTZ %s)", w, a.S)})
 	}
@@ -562,6 +708,9 @@ func (p *Path) fpToBits(a *Term) *Term {
 	if a.C {
 		return mkBV(64, math.Float64bits(a.F))
 	}
+	if gFPUF {
+		return &Term{K: KBV, W: 64, S: a.S}
+	}
 	bv := p.fresh("fbits", KBV, 64)
 	p.assume(&Term{K: KBool, S: "(= ((_ to_fp 11 53) " + bv.S + ") " + a.S + ")"})
 	return bv
@@ -570,6 +719,9 @@ func (p *Path) fpToBits(a *Term) *Term {
 func (p *Path) bitsToFP(a *Term) *Term {
 	if a.C && a.W == 64 {
 		return mkF64(math.Float64frombits(a.U))
+	}
+	if gFPUF {
+		return &Term{K: KFP, W: 64, S: a.S}
 	}
 	return p.nm(&Term{K: KFP, W: 64, S: "((_ to_fp 11 53) " + a.S + ")"})
 }
